@@ -426,3 +426,64 @@ Qed.
    is what Go computes *)
 Lemma nv_leb_refl a : nv_leb a a = true.
 Proof. unfold nv_leb. apply negb_true_iff. destruct (nv_ltb a a) eqn:E; [|reflexivity]. pose proof (nv_ltb_asym _ _ E). congruence. Qed.
+
+Lemma nv_ltb_spec a b :
+  nv_ltb a b = true <-> bytes_ltb (fst a) (fst b) = true \/ (fst a = fst b /\ bytes_ltb (snd a) (snd b) = true).
+Proof.
+  unfold nv_ltb. destruct (bytes_ltb (fst a) (fst b)) eqn:E1.
+  - split; auto.
+  - destruct (bytes_ltb (fst b) (fst a)) eqn:E2.
+    + split; [discriminate|]. intros [H|[H _]]; [discriminate|]. rewrite H, bytes_ltb_irrefl in E2. discriminate.
+    + split; [intros H; right; split; [apply bytes_ltb_tri; assumption|exact H]|]. intros [H|[_ H]]; [discriminate|exact H].
+Qed.
+
+Lemma nv_ltb_trans a b c : nv_ltb a b = true -> nv_ltb b c = true -> nv_ltb a c = true.
+Proof.
+  rewrite !nv_ltb_spec. intros [H1|[E1 H1]] [H2|[E2 H2]].
+  - left. eapply bytes_ltb_trans; eassumption.
+  - left. rewrite <- E2. exact H1.
+  - left. rewrite E1. exact H2.
+  - right. split; [congruence|eapply bytes_ltb_trans; eassumption].
+Qed.
+
+Lemma nv_leb_trans a b c : nv_leb a b = true -> nv_leb b c = true -> nv_leb a c = true.
+Proof.
+  intros H1 H2. destruct (nv_leb a c) eqn:E; [reflexivity|exfalso].
+  unfold nv_leb in *. apply negb_true_iff in H1. apply negb_true_iff in H2. apply negb_false_iff in E.
+  destruct (nv_ltb a b) eqn:Eab.
+  - pose proof (nv_ltb_trans _ _ _ E Eab). congruence.
+  - assert (a = b) by (apply nv_leb_antisym; unfold nv_leb; apply negb_true_iff; assumption). subst b. congruence.
+Qed.
+
+Lemma sorted_tail x t : nv_sorted (x :: t) = true -> nv_sorted t = true.
+Proof. cbn [nv_sorted]. destruct t; [reflexivity|]. intros H. apply andb_true_iff in H. exact (proj2 H). Qed.
+
+Lemma sorted_head_min x t : nv_sorted (x :: t) = true -> forall y, In y t -> nv_leb x y = true.
+Proof.
+  revert x. induction t as [|z t IH]; intros x S y Hin; [contradiction|].
+  cbn [nv_sorted] in S. apply andb_true_iff in S. destruct S as [Hxz St].
+  destruct Hin as [<-|Hin]; [exact Hxz|]. eapply nv_leb_trans; [exact Hxz|]. apply IH; assumption.
+Qed.
+
+(* sort.Slice is not stable, but any sorted permutation of the input is this list: the comparator is
+   a total order whose equal elements are identical *)
+Theorem har_sort_unique : forall l1 l2, nv_sorted l1 = true -> nv_sorted l2 = true -> Permutation l1 l2 -> l1 = l2.
+Proof.
+  induction l1 as [|x t1 IH]; intros l2 S1 S2 P.
+  - apply Permutation_nil in P. subst. reflexivity.
+  - destruct l2 as [|y t2]; [apply Permutation_sym, Permutation_nil in P; discriminate|].
+    assert (Hxy : nv_leb x y = true).
+    { assert (I : In y (x :: t1)) by (eapply Permutation_in; [apply Permutation_sym; exact P|left; reflexivity]).
+      destruct I as [<-|I]; [apply nv_leb_refl|apply (sorted_head_min _ _ S1 _ I)]. }
+    assert (Hyx : nv_leb y x = true).
+    { assert (I : In x (y :: t2)) by (eapply Permutation_in; [exact P|left; reflexivity]).
+      destruct I as [<-|I]; [apply nv_leb_refl|apply (sorted_head_min _ _ S2 _ I)]. }
+    pose proof (nv_leb_antisym _ _ Hxy Hyx). subst y. f_equal.
+    apply IH; [exact (sorted_tail _ _ S1)|exact (sorted_tail _ _ S2)|exact (Permutation_cons_inv P)].
+Qed.
+
+Corollary go_sort_is_har_sort : forall hs out, Permutation out hs -> nv_sorted out = true -> out = har_sort hs.
+Proof.
+  intros hs out P S. apply har_sort_unique; [exact S|apply har_sort_sorted|].
+  eapply Permutation_trans; [exact P|apply Permutation_sym, har_sort_perm].
+Qed.
